@@ -10,6 +10,7 @@ Exceptions      -> {"exc": [class names of the MRO]}
 No JSON null / float ever appears in the output (TLC's JsonDeserialize rejects them) and
 no integer above 2^31-1 (TLC integers are 32 bit): big ints are base-128 limb lists.
 """
+import types
 import datetime
 import decimal
 import uuid
@@ -111,7 +112,8 @@ def pv(x):
         return {"p": "list", "it": [pv(i) for i in x]}
     if t is tuple:
         return {"p": "tuple", "it": [pv(i) for i in x]}
-    if t is dict:
+    if t is dict or t is types.MappingProxyType:
+        # a read-only mapping view is a string-keyed mapping like any other (the documented Python mapping says "mappings")
         return {"p": "dict", "ks": [pv(k) for k in x.keys()], "vs": [pv(v) for v in x.values()]}
     if t is datetime.datetime:
         off = x.utcoffset()
